@@ -615,6 +615,7 @@ func runC14(c *fw.Ctx) {
 		O("a", S(""), "b", S("x"), "c", I(1), "d", N(), "e", L(), "f", O(), "", F(1.5), "g", B(false)), O(),
 	}
 	c.Cases("pinned", len(pins), true, func(i int, r *rng.R) { c14Case(c, r, pins[i]) })
+	c.Cases("mutating-callbacks", c.N(400, 100000), false, func(i int, r *rng.R) { c14Mutating(c, r) })
 	c.Cases("containers", c.N(2000, 1000000), false, func(i int, r *rng.R) {
 		// several elements of each kind interleaved, none of a kind, neighbours of look-alike kinds, empty
 		root := spec.List
@@ -659,6 +660,178 @@ func runC14(c *fw.Ctx) {
 			}
 		}
 		c14Case(c, r, t)
+	})
+}
+
+// c14Mutating: callbacks that change the container they are iterating. What "the fields" are is then open for the
+// entries the callback removed or added itself, but not for the others: an entry the callback never touches is visited
+// exactly once (with its key / index and value), a removed or added one at most once, and the iteration ends normally.
+func c14Mutating(c *fw.Ctx, r *rng.R) {
+	n := r.Range(2, 9)
+	keys := make([]string, n)
+	for i := range keys {
+		keys[i] = fmt.Sprintf("%c%d", 'a'+rune(r.Intn(6)), i)
+	}
+	victims := map[string]bool{}
+	for i := r.Range(1, n-1); i > 0; i-- {
+		victims[keys[r.Intn(n)]] = true
+	}
+	mode := r.Intn(3) // 0: remove the victims at the first call, 1: each call removes one victim, 2: the callback adds new fields
+	view := r.Intn(6)
+	names := []string{"ForEach", "ForEachValue", "ForEachInt", "Map", "MapValues", "MapInts"}
+	in := func() string {
+		return fmt.Sprintf("object with the int fields %v; Object.%s whose callback (mode %d) unsets / adds fields other than the current one; victims %v", keys, names[view], mode, victims)
+	}
+	guard(c, in, func() {
+		c.Distinct(in())
+		c.Count("mutating_callback_cases")
+		o := at.NewObject()
+		val := map[string]int{}
+		for i, k := range keys {
+			o.Set(k, i*10)
+			val[k] = i * 10
+		}
+		byVal := map[int]string{}
+		for k, v := range val {
+			byVal[v] = k
+		}
+		visits := map[string]int{}
+		removed := map[string]bool{}
+		calls := 0
+		act := func(cur string) {
+			calls++
+			visits[cur]++
+			switch mode {
+			case 0:
+				if calls == 1 {
+					for k := range victims {
+						if k != cur {
+							o.Unset(k)
+							removed[k] = true
+						}
+					}
+				}
+			case 1:
+				for k := range victims {
+					if k != cur && !removed[k] {
+						o.Unset(k)
+						removed[k] = true
+						break
+					}
+				}
+			default:
+				if calls <= 3 {
+					o.Set(fmt.Sprintf("new%d", calls), 1000+calls)
+				}
+			}
+		}
+		var res at.Object
+		pan, msg := drive.Protect(func() {
+			switch view {
+			case 0:
+				o.ForEach(func(k string, v any) { act(k) })
+			case 1:
+				o.ForEachValue(func(v any) {
+					if iv, ok := v.(int); ok && iv < 1000 {
+						act(byVal[iv])
+					}
+				})
+			case 2:
+				o.ForEachInt(func(v int) {
+					if v < 1000 {
+						act(byVal[v])
+					}
+				})
+			case 3:
+				res = o.Map(func(k string, v any) any { act(k); return tag(v) })
+			case 4:
+				res = o.MapValues(func(v any) any {
+					if iv, ok := v.(int); ok && iv < 1000 {
+						act(byVal[iv])
+					}
+					return tag(v)
+				})
+			default:
+				res = o.MapInts(func(v int) any {
+					if v < 1000 {
+						act(byVal[v])
+					}
+					return tag(v)
+				})
+			}
+		})
+		if pan {
+			c.Violate("view-wrong:mutating-callback", in(), "the iteration ends normally; every field the callback did not touch is visited once", "panic: "+msg)
+			return
+		}
+		for _, k := range keys {
+			switch {
+			case !removed[k] && visits[k] != 1:
+				c.Violate("view-wrong:mutating-callback", in(), fmt.Sprintf("field %q, never removed, visited exactly once", k), fmt.Sprintf("visited %d times (visits %v)", visits[k], visits))
+				return
+			case visits[k] > 1:
+				c.Violate("view-wrong:mutating-callback", in(), fmt.Sprintf("field %q visited at most once", k), fmt.Sprintf("visited %d times", visits[k]))
+				return
+			}
+			if res != nil && !removed[k] {
+				ok := false
+				drive.Protect(func() { ok = res.KeyExists(k) && eqSlot(res.Get(k), tag(val[k])) })
+				if !ok {
+					c.Violate("view-wrong:mutating-callback", in(), fmt.Sprintf("Map result holds f(value) under the key %q of a field that was never removed", k), "it does not: "+stringCanon(res))
+					return
+				}
+			}
+		}
+	})
+	// lists: the callback appends elements; the elements that were there from the start are visited once each, in order
+	m := r.Range(1, 8)
+	inL := func() string {
+		return fmt.Sprintf("list of the ints 0..%d; List.%s whose callback appends elements", m-1, []string{"ForEach", "ForEachValue", "ForEachInt", "Map", "MapValues", "MapInts"}[view])
+	}
+	guard(c, inL, func() {
+		c.Distinct(inL())
+		l := at.NewList()
+		for i := 0; i < m; i++ {
+			l.Add(i)
+		}
+		var seen []int
+		calls := 0
+		act := func(v int) {
+			calls++
+			if v < 1000 {
+				seen = append(seen, v)
+			}
+			if calls <= 3 {
+				l.Add(1000 + calls)
+			}
+		}
+		pan, msg := drive.Protect(func() {
+			switch view {
+			case 0:
+				l.ForEach(func(i int, v any) { act(v.(int)) })
+			case 1:
+				l.ForEachValue(func(v any) { act(v.(int)) })
+			case 2:
+				l.ForEachInt(func(v int) { act(v) })
+			case 3:
+				l.Map(func(i int, v any) any { act(v.(int)); return v })
+			case 4:
+				l.MapValues(func(v any) any { act(v.(int)); return v })
+			default:
+				l.MapInts(func(v int) any { act(v); return v })
+			}
+		})
+		if pan {
+			c.Violate("view-wrong:mutating-callback", inL(), "the iteration ends normally", "panic: "+msg)
+			return
+		}
+		ok := len(seen) == m
+		for i := 0; ok && i < m; i++ {
+			ok = seen[i] == i
+		}
+		if !ok {
+			c.Violate("view-wrong:mutating-callback", inL(), "the original elements visited once each, in order", fmt.Sprint(seen))
+		}
 	})
 }
 
